@@ -64,6 +64,24 @@ FAMILY_CTX = {"n": 7, "m": -12, "s": "ab", "t": True, "l": [1, "x", [2]], "k": [
               "d": {"k": "<v>", "z": 1}, "u": "naïve 中文 \U0001f600"}
 
 
+def merge_raws(body):
+    """adjacent raw statements are one piece of template text in the printed source (one EmitRaw)"""
+    out = []
+    for st in body:
+        st = _map_bodies(st)
+        if st[0] == "raw" and out and out[-1][0] == "raw":
+            out[-1] = ("raw", out[-1][1] + st[1])
+        else:
+            out.append(st)
+    return out
+
+
+def _map_bodies(st):
+    for b in proggen._sub_bodies(st):
+        st = proggen._replace_body(st, b, merge_raws(b))
+    return st
+
+
 def hexb(s):
     return bytes.fromhex(s or "")
 
@@ -135,7 +153,7 @@ def gen_programs(chk):
     for t, main, entry in FAMILIES:
         for ub in ("lenient", "strict"):
             progs.append(Prog(t, main, entry, FAMILY_CTX, ub, label="family"))
-    n = 1500 if chk.thorough else 170
+    n = 20000 if chk.thorough else 400
     for j in range(n):
         html = j % 2 == 1
         inc = j % 5 == 0
@@ -346,7 +364,7 @@ def main():
             chk.cov["kernel_crosscheck"] = {"cases": len(small), "agree": kern_ok}
             # the interpreter's chunk list (core fragment, generated programs without includes)
             idx = [i for i, p in enumerate(progs) if p.ast is not None and infos[i] is not None]
-            creqs = [langenc.request(progs[i].ast, progs[i].ctx, "lenient", progs[i].main.endswith(".html"))[0] for i in idx]
+            creqs = [langenc.request(merge_raws(progs[i].ast), progs[i].ctx, "lenient", progs[i].main.endswith(".html"))[0] for i in idx]
             cm = run_model("C19", "c19-chunks", creqs)
             for i, m in zip(idx, cm):
                 info = infos[i]
